@@ -2,12 +2,16 @@
 import verif as V
 
 PROP = "C05"
-SPEC = ["Bng.Spec.C05", "Bng.Spec.C05Epoch", "Bng.Spec.C05FreeList"]
+SPEC = ["Bng.Spec.C05", "Bng.Spec.C05Epoch", "Bng.Spec.C05FreeList", "Bng.Spec.C05Cluster"]
 MON = ["count", "total", "exhaustion", "lost"]
 # epoch (lease) allocator: Bng.LeaseSpec adds expiry/reclaimed to the pool monitor
-MON_EPOCH = ["count", "total", "exhaustion", "lost", "expiry", "reclaimed"]
+MON_EPOCH = ["count", "total", "exhaustion", "lost", "expiry", "reclaimed", "utilisation"]
 COMPS = [
+    # PoolAllocator (store.go): the bitmap allocator behind a persisting store (production path of NewLocalAllocator, dhcpv6)
+    V.Component("poolalloc", monitors=MON),
     V.Component("epoch", monitors=MON_EPOCH),
+    # DistributedAllocator.Stats: the utilisation figure (its unit depends on the pool mode: KF-util-units)
+    V.Component("dist", monitors=["utilisation"]),
     V.Component("bitmap", monitors=MON),
     # the five free-list pools (one generic Lean model, Bng.FreeList)
     V.Component("dhcppool", monitors=MON),
@@ -15,11 +19,14 @@ COMPS = [
     V.Component("v6prefix", harness="v6pool", monitors=MON, exec_env={"V6POOL_KIND": "prefix"}),
     V.Component("pppoepool", monitors=MON),
     V.Component("localpool", monitors=MON),
+    # two/three PeerPool nodes with health flips: per-node counts, and releases that free nothing ("leak")
+    V.Component("peercluster", monitors=MON + ["leak"]),
 ]
 LEVEL = ("Counting, exhaustion-only-when-full and release-returns are theorems over the Lean pool models for ALL "
          "operation histories and geometries; the models are tied to the real Go code by differential execution, and "
          "the abstract pool monitor judges the real code's Stats()/exhaustion answers against the holdings it handed out.")
 ASSUME = [
+    "small-scope exhaustive enumeration is part of the thorough tier only; bounds as listed in checks/c01.py (pools of 1-4 units, sequences of length 4-7); peercluster: random sequences only, nodes share peers and pool network",
     "free-list pools: the network is what net.ParseCIDR returns; the universe of a pool is what its constructor generates (dhcpv6 pools: the first 1000 units by design); 'usable' excludes addresses MarkUnavailable took off the free list; keys are mapped injectively to numbers",
     "epoch: expiry theorems assume byte(gracePeriod) <= 2 (finding D20 is the complement); Stats theorem assumes at least two slots (finding KF-epoch-tiny is the complement)",
     "each mutex-protected method is one atomic step; data races inside a critical section are not modelled",
